@@ -612,7 +612,8 @@ class HdlRecorder:
             start = len(lg.calls)
             now = int(rec.sim.clock)
             rec.routed = None
-            kind, args = 3, []
+            kind, args = (5, []) if control else (3, [])
+            n_replies = len(self_.control_replies)
             try:
                 if udp_in is not None:
                     from ipaddress import ip_address
@@ -638,7 +639,7 @@ class HdlRecorder:
                     elif header.type == xfrm.XFRM_MSG_EXPIRE:
                         kind, args = 2, [bytes(msg.state.id.spi), bool(msg.hard)]
             except Exception:
-                kind, args = 3, []
+                kind, args = (5, []) if control else (3, [])
             try:
                 return inner_loop(self_, udp_in=udp_in, xfrm_in=xfrm_in, control=control)
             finally:
@@ -655,7 +656,20 @@ class HdlRecorder:
                         args[3] = [a[1], a[2], a[3]]
                 lg.iterations.append((kind, args, tape, now))
                 table = [[lg.ids.get(id(sa), -1), rec.state_sx(sa)] for sa in self_.controller.ike_sas]
-                lg.iter_expected.append([table, [rec.msg_of_bytes(d) for (_, _, d) in self_.sent], kops, 0, rec.routed])
+                status = None
+                if control and len(self_.control_replies) > n_replies:
+                    import json as _json
+                    status = []
+                    for e in _json.loads(self_.control_replies[-1]):
+                        kids = []
+                        for c in e['child_sas']:
+                            parts = [x.strip() for x in c['spis'].strip('()').split(',')]
+                            kids.append([bytes.fromhex(parts[0]), bytes.fromhex(parts[1]),
+                                         int(message.Proposal.Protocol[c['protocol']]), int(xfrm.Mode[c['mode']])])
+                        status.append([bytes.fromhex(e['my_spi']), bytes.fromhex(e['peer_spi']), bool(e['is_initiator']),
+                                       int(IkeSa.State[e['state']]), int(e['msg_id']), kids])
+                lg.iter_expected.append([table, [rec.msg_of_bytes(d) for (_, _, d) in self_.sent], kops, 0, rec.routed,
+                                         status])
         st.enter_context(mock.patch.object(world.Endpoint, 'loop_once', loop_once))
         self._stack = st
         return self
